@@ -58,6 +58,27 @@ def callSpl (c : Call) (st : St) : List String :=
       else [ line "erosion" (joinF ero.toList), line "ncorr" (toString nc) ]
   | _ => ["O model-bad-spl"]
 
+/-- `kernel <bfs|dfs|any> <threads> <min_block> <min_level>`: the harness kernel computes, along
+the requested upstream order, 1 + the largest value among the node's proper receivers (0 at
+terminal nodes) - the longest downstream path; for `any` the value is index + 1.  The result does
+not depend on the thread count or the thresholds; a multi-threaded depth-first application is
+refused. -/
+def callKernel (c : Call) (st : St) : List String :=
+  let n := st.topo.n
+  let dir := c.toks.getD 1 "bfs"
+  let threads := natOf (c.toks.getD 2 "1")
+  if threads > 1 && dir == "dfs" then ["O kernel err runtime_error"]
+  else if dir == "any" then [line "kernel" (joinF ((List.range n).map (fun i => Float.ofNat (i + 1))))]
+  else
+    -- bottom-up order: every receiver before its donors (dfs for single, reversed Kahn for multi)
+    let val : Array Float := st.g.dfs.foldl (fun (v : Array Float) i =>
+      let best := (st.g.recv i).foldl (fun (b : Float) r => if r == i then b else
+        let vr := v.getD r (-1.0)
+        let vr := if vr < 0.0 then 1e9 else vr
+        if b < vr then vr else b) (-1.0)
+      v.setIfInBounds i (best + 1.0)) (Array.replicate n (-1.0))
+    [line "kernel" (joinF val.toList)]
+
 /-! ### worker pool: block arithmetic and API programs -/
 
 def blocksLine (pre : String) (first last n mn : Nat) : String :=
@@ -112,6 +133,7 @@ def runFlowOk (st : St) (c : Call) : St × List String :=
   | "basins" :: _ => (st, callBasins "" st.topo.n st.g st.mask st.isBase)
   | "bgraph" :: _ => (st, callBgraph c st)
   | "spl" :: _ => (st, callSpl c st)
+  | "kernel" :: _ => (st, callKernel c st)
   | "snapcall" :: nm :: what :: rest =>
     let refused (k : Nat) (lbl : String) : List String :=
       -- a snapshot graph is read-only: the guard must be present in the mutator and the snapshot
